@@ -390,6 +390,31 @@ def _check_converters(repo, r4):
         f = bc.methods.get(nm)
         rets = [ps.ret for ps in summarize(f) if ps.exc is None] if f is not None else []
         r4.require(f is not None and bool(rets) and all(rt in mk(("var", f.params[0])) for rt in rets), f or cv, nm, "%s no longer returns %s" % (nm, S.show(mk(("var", "xbytes"))[0])))
+    check_db_conversion(repo, r4)
+    gt = repo.func(DBU, "get_total_size")
+    ftg = fn_terms(repo, gt)
+    okt = False
+    for n in ftg.cfg.nodes:
+        if n.kind == "return" and n.stmt.value is not None:
+            t = ftg.term(n.stmt.value, n.id)
+            if t[0] == "call" and t[1] == "sum" and len(t[2]) == 1:
+                inner = t[2][0]
+                d = ("param", gt.params[0])
+                if inner[0] == "comp" and inner[2][0] == "call" and inner[2][1] == "len" and inner[2][2] and inner[2][2][0] in (("sub", d, ("elem", d)), ("elem", ("mcall", d, "values", (), ()))):
+                    okt = True
+                if inner[0] == "call" and inner[1] == "map" and len(inner[2]) == 2 and inner[2][1] == ("mcall", d, "values", (), ()):
+                    okt = True
+    r4.require(okt, gt, "total size", "get_total_size no longer sums the list lengths")
+    ch = repo.func("toolkit/list_utils.py", "chunks")
+    l2, n2 = (("var", x) for x in ch.params[:2])
+    I2 = _range_elem(l2, n2)
+    ys = [c for ps in summarize(ch, unroll=1) if ps.exc is None for _n, c, _f in ps.calls if c[0] == "yield"]
+    r4.require(bool(ys) and all(y[1] in (("slice", l2, I2, ("cat", (I2, n2))), ("slice", l2, I2, ("cat", (n2, I2)))) for y in ys), ch, "chunks",
+               "list_utils.chunks no longer yields consecutive n-sized slices")
+
+
+def check_db_conversion(repo, r4):
+    from ..terms import fn_terms
     # database conversion: {bytes(keyword, encoding): [bytes.fromhex(identifier) for identifier in db[keyword]]} in a fresh dict
     cd = repo.func(DBU, "convert_database_keyword_to_bytes")
     ft = fn_terms(repo, cd)
@@ -430,26 +455,6 @@ def _check_converters(repo, r4):
     r4.require(okdb, cd, "database conversion", "convert_database_keyword_to_bytes no longer maps bytes(keyword, encoding) to the list of bytes.fromhex(identifier) of that keyword")
     dflt = cd.node.args.defaults
     r4.require(bool(dflt) and isinstance(dflt[0], ast.Constant) and dflt[0].value == "utf-8", cd, "default encoding utf-8", "convert_database_keyword_to_bytes no longer defaults to utf-8")
-    gt = repo.func(DBU, "get_total_size")
-    ftg = fn_terms(repo, gt)
-    okt = False
-    for n in ftg.cfg.nodes:
-        if n.kind == "return" and n.stmt.value is not None:
-            t = ftg.term(n.stmt.value, n.id)
-            if t[0] == "call" and t[1] == "sum" and len(t[2]) == 1:
-                inner = t[2][0]
-                d = ("param", gt.params[0])
-                if inner[0] == "comp" and inner[2][0] == "call" and inner[2][1] == "len" and inner[2][2] and inner[2][2][0] in (("sub", d, ("elem", d)), ("elem", ("mcall", d, "values", (), ()))):
-                    okt = True
-                if inner[0] == "call" and inner[1] == "map" and len(inner[2]) == 2 and inner[2][1] == ("mcall", d, "values", (), ()):
-                    okt = True
-    r4.require(okt, gt, "total size", "get_total_size no longer sums the list lengths")
-    ch = repo.func("toolkit/list_utils.py", "chunks")
-    l2, n2 = (("var", x) for x in ch.params[:2])
-    I2 = _range_elem(l2, n2)
-    ys = [c for ps in summarize(ch, unroll=1) if ps.exc is None for _n, c, _f in ps.calls if c[0] == "yield"]
-    r4.require(bool(ys) and all(y[1] in (("slice", l2, I2, ("cat", (I2, n2))), ("slice", l2, I2, ("cat", (n2, I2)))) for y in ys), ch, "chunks",
-               "list_utils.chunks no longer yields consecutive n-sized slices")
 
 
 def _is_item_value(t, dbp):
